@@ -72,6 +72,19 @@ def run(req):
                     y = pickle.loads(pickle.dumps(ann))
                 elif route == "cloudpickle":
                     y = cloudpickle.loads(cloudpickle.dumps(ann))
+                elif route == "pickle-reload-after-use":
+                    # load once, let the loaded copy be used as the return annotation of a decorated generator function
+                    # (jaxtyped makes THAT object transparent), then load the same bytes again: the second copy -- and the
+                    # original -- must be unaffected by what happened to the first
+                    import jaxtyping as jt, warnings as _w
+                    blob = pickle.dumps(ann)
+                    y1 = pickle.loads(blob)
+                    def _gen(x) -> y1:
+                        yield x
+                    with _w.catch_warnings():
+                        _w.simplefilter("ignore")
+                        jt.jaxtyped(typechecker=None)(_gen)
+                    y = pickle.loads(blob)
                 elif route == "copy":
                     y = copy.copy(ann)
                 elif route == "deepcopy":
